@@ -33,6 +33,8 @@ def build(ctx, only_step=None):
             jobs.append((name + '_avx512', [os.path.join(H, main)] + src('poseidon_goldilocks.cpp', 'goldilocks_base_field.cpp'), san_flags(ctx, avx512=True), ['-lgmp']))
     jobs.append(('c18_cubic', [os.path.join(H, 'c09_cubic.cpp')] + src('goldilocks_base_field.cpp', 'goldilocks_cubic_extension.cpp'), san_flags(ctx), ['-lgmpxx', '-lgmp']))
     jobs.append(('c18_conv', [os.path.join(H, 'c15_conv.cpp')] + src('goldilocks_base_field.cpp'), san_flags(ctx), ['-lgmpxx', '-lgmp']))
+    jobs.append(('c18_stack', [os.path.join(H, 'c18_stack.cpp')] + src('poseidon_goldilocks.cpp', 'goldilocks_base_field.cpp', 'ntt_goldilocks.cpp', 'goldilocks_cubic_extension.cpp'),
+                 ctx.flags_native(avx512=a512, extra=['-I' + H]), ['-lgmp', '-lpthread']))  # plain build: the sanitizers change the stack layout
     jobs.append(('c18_inv', [os.path.join(H, 'c10_inv.cpp')] + src('goldilocks_base_field.cpp'), san_flags(ctx), ['-lgmp']))
     # matrix kernels: coefficient arrays become exact-size heap blocks (-DEXACT_HEAP) so over-reads are visible
     objs = [('c18_mat_tu.o', [os.path.join(H, 'mat_tu.cpp')], san_flags(ctx, avx512=a512, extra=['-DKNS=nat', '-DEXACT_HEAP', '-c']), [])]
@@ -98,7 +100,9 @@ def explore(ctx):
         del ctx.viols[before:]
         for v in new:
             ss = _san_sig(v['detail'])
-            if ss:
+            if v['sig'].startswith('C18.stack-overflow.'):
+                ctx.viols.append(v)
+            elif ss:
                 v = dict(v)
                 v['sig'] = 'C18.%s.%s.%s' % ss
                 ctx.viols.append(v)
@@ -134,6 +138,10 @@ def explore(ctx):
     run('c18_conv', b['c18_conv'])
     run('c18_inv', b['c18_inv'])
     run('c18_matrix', b['c18_matrix'])
+    if 'c18_stack' in b:
+        before = len(ctx.viols)
+        local = ctx.run_step('c18_stack', b['c18_stack'], [], allow_fail=True)
+        absorb('c18_stack', local, before)
     for name, exe in sorted(ctx.ovl_bins.items()):
         ctx.steps[name] = {'binary': exe}
         run(name, exe)
